@@ -13,6 +13,7 @@ from harness.extract import database_client_tr as x_cli
 from harness.extract import database_tick_tr as x_tick
 from harness.extract import database_conn_writers as x_cw
 from harness.extract import database_bot_tr as x_bot
+from harness.extract import database_client_send_tr as x_snd
 from harness.rigs import database as rig
 
 MANIFEST = {
@@ -87,7 +88,7 @@ MANIFEST = {
     "design_ref": "5/C17",
 }
 MODULES = ["PrimaiteModel.Props.C17", "PrimaiteModel.Props.C17Gen", "PrimaiteModel.Props.C17Run", "PrimaiteModel.Props.C17Recv", "PrimaiteModel.Props.C17Ftp",
-           "PrimaiteModel.Props.C17Client", "PrimaiteModel.Props.C17Tick", "PrimaiteModel.Props.C17Bot", "PrimaiteModel.Props.C17BotModel", "PrimaiteModel.Props.C17Sql",
+           "PrimaiteModel.Props.C17Client", "PrimaiteModel.Props.C17Tick", "PrimaiteModel.Props.C17Bot", "PrimaiteModel.Props.C17BotModel", "PrimaiteModel.Props.C17Sql", "PrimaiteModel.Props.C17ClientSend",
            "PrimaiteModel.Lemmas.DatabaseReach"]
 EXE = "drv_c17"
 
@@ -189,6 +190,9 @@ def run(ctx: Ctx):
         for fname, why in sorted(x_cli.FAILED.items()):
             ctx.oblige(f"translate-client:{fname}", "extractor", False, why)
         ctx.oblige("translate-client:all-10-functions", "extractor", not x_cli.FAILED, "; ".join(sorted(x_cli.FAILED)))
+        ctx.extract(x_snd.GEN_NAME, x_snd.emit)
+        for fname, *_ in x_snd.FUNCS:   # the sending halves of the client (second shift): one obligation per method
+            ctx.oblige(f"translate-client-send:{fname}", "extractor", fname not in x_snd.FAILED, x_snd.FAILED.get(fname, ""))
         ctx.extract(x_cw.GEN_NAME, x_cw.emit)
         ctx.extract(x_bot.GEN_NAME, x_bot.emit)
         for mname in x_bot.ORDER:   # the data-manipulation bot's stage machine (round 7)
